@@ -35,6 +35,26 @@ def main():
             mod.replay(res, payload)
         else:
             mod.run(res)
+            # the correspondence (or a proof) broke but no property-level test failed: search harder for a
+            # concrete failing input before reporting no-failing-input-found (thorough-tier case counts,
+            # another seed); only the property failures of the search are taken over
+            known = fw.load_known()
+            unlisted = [f for f in res.prop_failures if fw.matches_known(f, known, args.prop) is None]
+            broken = bool(res.mismatches) or not proof_info.get("ok")
+            if broken and not unlisted and args.tier == "quick" and os.environ.get("VERIF_NO_SEARCH") != "1":
+                res2 = fw.Result(args.prop, "thorough", seed + 7919)
+                t1 = time.time()
+                try:
+                    mod.run(res2)
+                except Exception as exc:  # noqa: BLE001
+                    res.notes.append("failing-input search raised %r" % (exc,))
+                found = [f for f in res2.prop_failures if fw.matches_known(f, known, args.prop) is None]
+                for f in found:
+                    f = dict(f)
+                    f["found_by"] = "failing-input search (thorough counts, seed %d)" % (seed + 7919)
+                    res.prop_failures.append(f)
+                res.notes.append("failing-input search after a broken correspondence/proof: %d cases, %d unlisted "
+                                 "property failures, %.0fs" % (res2.evaluations, len(found), time.time() - t1))
     checker = ("make -C /verif all && coqc -Q theories SV theories/Properties/%s.v "
                "(Print Assumptions per theorem; forbidden-token grep over coq/theories)" % args.prop)
     chk = None
